@@ -249,3 +249,32 @@ def evidence(prop, spec, tier, seed, records, deaths, unfinished, planned, wall_
         "wall_s": round(wall_s, 1),
         "violations": n_new,
     }
+
+
+SIM = "deterministic simulation with fault injection"
+MANIFEST_TEXT = {
+ "C01": {"text": "seeded search over generated (config, store, query) cases x release orders of the engine's concurrent storage calls x storage orders, each compared with an independent stratified Zanzibar evaluator; sampling, not proof",
+         "note": "trusts the reference evaluator sim/ref.go, SQLite and the Go runtime between two storage calls; only the sqlite dialect runs; limits non-binding by the reference's criterion",
+         "technique": SIM + ": seeded scheduler at the storage seam inside a synctest bubble, reference-model oracle"},
+ "C02": {"text": "seeded search over cases with binding depth/width limits: fail-closed implication against the unbounded reference, and call-for-call trace equality of (request depth r, global g) vs (0, eff(r,g)) under the same schedule tape",
+         "note": "trusts the reference evaluator as the unbounded semantics; one open known finding (KF-08: cut below a negation is inverted) is reported as KNOWN-FINDING",
+         "technique": SIM + ": same-tape differential execution under the seeded scheduler, reference-model oracle"},
+ "C03": {"text": "per generated case the fault position k is enumerated over every storage call of the fault-free schedule (exhaustive when N <= limit) x {transient, persistent, ctx}; oracle: error or the fault-free answer, never error+allowed; cases are sampled",
+         "note": "faults are fail-stop at the relationtuple.Manager / Traverser seam; limits non-binding so that the fault-free answer is one value",
+         "technique": SIM + ": fault enumeration at the storage-API seam under a replayed schedule tape"},
+ "C04": {"text": "seeded API histories through the real routers / gRPC servers, model-checked step by step against a multiset reference (ShardStore-style conformance), fault-free and with fail-stop SQL statement faults",
+         "note": "ops run one at a time; SQLite only; model sim/sys.go is the specification",
+         "technique": SIM + ": history generation + reference-model conformance with SQL-statement fault injection"},
+ "C06": {"text": "seeded histories in tenant A against one multi-tenant registry (Contextualizer) with every observable of the other tenants re-observed after every operation and compared with its snapshot and model",
+         "note": "tenants share one SQLite database; isolation by nid predicates and per-network UUIDv5 are both real code",
+         "technique": SIM + ": multi-tenant history simulation with observable-invariance oracle"},
+ "C07": {"text": "seeded pagination iterations across page-size boundaries over REST and gRPC, interleaved with another client's inserts and deletes; exactly-once bounds per row content, page-size bound, token-empty-iff-last, malformed tokens",
+         "note": "rows with equal content are indistinguishable in API output (multiset bounds); SQLite only",
+         "technique": SIM + ": interleaved client histories with an iterator reference model"},
+ "C15": {"text": "per generated case the cancellation instant j and the failing storage call k are enumerated over every storage call of the fault-free schedule (exhaustive when N <= limit); oracles: return, bounded storage calls, prompt return after cancel, no goroutine left (synctest deadlock detection), process survival",
+         "note": "bound on storage calls is deliberately loose; select between a ready result and a cancelled context is not seedable, both outcomes accepted",
+         "technique": SIM + ": cancellation / fault enumeration under the seeded scheduler, synctest quiescence as leak and hang detector"},
+ "C17": {"text": "seeded read/syntax request sequences over all 15 read entry points; oracle at the SQL-driver seam (no write statement) plus byte-level table dump through an unwrapped connection after every request",
+         "note": "statement classification by leading keyword; SQLite only",
+         "technique": SIM + ": request-sequence simulation with a statement-log monitor at the SQL-driver seam"},
+}
